@@ -1,7 +1,8 @@
-CONSTANTS MaxLines = 4
+CONSTANTS MaxLines = 3
           Recognised <- OnlyBackticks
           CloseByAny = FALSE
           Directives = "prose"
+          CloseAnyLength = FALSE
           Tracked = TRUE
 INIT CLInit
 NEXT CLNext
